@@ -1049,17 +1049,21 @@ func RunSliceExpr(ctx *Task, expr *ast.SliceExpr) (any, ast.DType, *errchain.PlE
 			return nil, ast.Invalid, err
 		}
 	}
-	var startInt, endInt, stepInt int
 	var length int
+	var str string
+	var list []any
 	switch objT { //nolint:exhaustive
 	case ast.String:
-		length = len(obj.(string))
+		str, _ = obj.(string)
+		length = len(str)
 	case ast.List, ast.DType(ast.TypeSliceExpr):
-		length = len(obj.([]any))
+		list, _ = obj.([]any)
+		length = len(list)
 	default:
 		return nil, ast.Invalid, NewRunError(ctx, "invalid obj type", expr.Obj.StartPos())
 	}
 
+	stepInt := 1
 	if step != nil {
 		if stepT != ast.Int {
 			return nil, ast.Invalid, NewRunError(ctx, "step type must be integer", expr.Step.StartPos())
@@ -1068,89 +1072,96 @@ func RunSliceExpr(ctx *Task, expr *ast.SliceExpr) (any, ast.DType, *errchain.PlE
 		if stepInt == 0 {
 			return nil, ast.Invalid, NewRunError(ctx, "step must be non-zero", expr.Step.StartPos())
 		}
-	} else {
-		stepInt = 1
 	}
 
+	var startInt, endInt *int
 	if start != nil {
 		if startT != ast.Int {
 			return nil, ast.Invalid, NewRunError(ctx, "start type must be integer", expr.Start.StartPos())
 		}
-		startInt = cast.ToInt(start)
-		if startInt < 0 {
-			startInt = length + startInt
-		}
-	} else if stepInt > 0 {
-		startInt = 0
-	} else {
-		startInt = length - 1
+		v := cast.ToInt(start)
+		startInt = &v
 	}
 
 	if end != nil {
 		if endT != ast.Int {
 			return nil, ast.Invalid, NewRunError(ctx, "end type must be integer", expr.End.StartPos())
 		}
-		endInt = cast.ToInt(end)
-		if endInt < 0 {
-			endInt = length + endInt
-		}
-	} else if stepInt > 0 {
-		endInt = length
-	} else {
-		endInt = -1
+		v := cast.ToInt(end)
+		endInt = &v
 	}
 
-	switch objT {
-	case ast.String:
-		str := obj.(string)
-		if stepInt > 0 {
-			result := ""
-			if startInt < 0 {
-				startInt = 0
+	first, count := SliceIndices(length, startInt, endInt, stepInt)
+
+	if objT == ast.String {
+		var result []byte
+		for n, i := 0, first; n < count; n, i = n+1, i+stepInt {
+			if i < 0 || i >= len(str) {
+				break
 			}
-			for i := startInt; i < endInt && i < length; i += stepInt {
-				result += string(str[i])
-			}
-			return result, ast.String, nil
-		} else {
-			result := ""
-			if startInt > length-1 {
-				startInt = length - 1
-			}
-			for i := startInt; i > endInt && i >= 0; i += stepInt {
-				result += string(str[i])
-			}
-			return result, ast.String, nil
+			result = append(result, str[i])
 		}
-	default:
-		list := obj.([]any)
-		if stepInt > 0 {
-			if startInt < 0 {
-				startInt = 0
-			}
-			if endInt > length {
-				endInt = length
-			}
-			result := make([]any, 0, (endInt-startInt+stepInt-1)/stepInt)
-			for i := startInt; i < endInt; i += stepInt {
-				result = append(result, list[i])
-			}
-			return result, ast.List, nil
-		} else {
-			if startInt > length-1 {
-				startInt = length - 1
-			}
-			if endInt < 0 {
-				endInt = -1
-			}
-			result := make([]any, 0, (startInt-endInt-stepInt-1)/(-stepInt))
-			for i := startInt; i > endInt; i += stepInt {
-				result = append(result, list[i])
-			}
-			return result, ast.List, nil
-		}
+		return string(result), ast.String, nil
 	}
+
+	result := []any{}
+	for n, i := 0, first; n < count; n, i = n+1, i+stepInt {
+		if i < 0 || i >= len(list) {
+			break
+		}
+		result = append(result, list[i])
+	}
+	return result, ast.List, nil
 }
+
+// SliceIndices returns the index of the first element and the number of
+// elements selected by a slice over a sequence of the given length, the way
+// Python's slice.indices does: a negative bound counts from the end, a bound
+// beyond the sequence is clamped to it, and an omitted (nil) bound selects up
+// to the end of the sequence in the direction of step. The i-th selected
+// element is at first+i*step, which lies in [0, length).
+func SliceIndices(length int, start, end *int, step int) (first, count int) {
+	if step == 0 || length < 0 {
+		return 0, 0
+	}
+
+	// the range a bound is clamped to, and the bounds used when omitted
+	low, high := 0, length
+	first, last := 0, length
+	if step < 0 {
+		low, high = -1, length-1
+		first, last = length-1, -1
+	}
+
+	if start != nil {
+		first = clampSliceBound(*start, length, low, high)
+	}
+	if end != nil {
+		last = clampSliceBound(*end, length, low, high)
+	}
+
+	if step > 0 {
+		if first < last {
+			count = (last-first-1)/step + 1
+		}
+	} else if last < first {
+		count = (last-first+1)/step + 1
+	}
+	return first, count
+}
+
+func clampSliceBound(v, length, low, high int) int {
+	if v < 0 {
+		v += length
+		if v < low {
+			v = low
+		}
+	} else if v > high {
+		v = high
+	}
+	return v
+}
+
 func typePromotion(l ast.DType, r ast.DType) ast.DType {
 	if l == ast.Float || r == ast.Float {
 		return ast.Float
